@@ -21,6 +21,7 @@ from drivers import mdexec, strace_kill
 from harness import common, mdtrace
 
 from . import mdshared as S
+from . import repotraces
 
 PROP = "C10"
 
@@ -231,14 +232,40 @@ def main(tier):
                     rep.violation("property_violated_on_trace" if v["bad"] != "-" else "trace_rejected",
                                   {"case": j["case"], "kill_at": [j["syscall"], j["when"], j["kind"]], "matched_events": v["l"], "of": v["n"], "model_pc": v["pc"], "violated_property": v["bad"],
                                    "next_event_not_explained": ev[v["l"]] if v["l"] < len(ev) else None, "segments": o["segments"]}, rejected_at=(ev[v["l"]] if v["l"] < len(ev) else {}).get("name"), violated=v["bad"], **fields)
+        # ---- 6. executions of the repository's own MD tests (thorough) -----------------------------
+        repo_info = {"segments": 0, "accepted": 0}
+        if tier == "thorough":
+            ev, rc, tail = repotraces.record(["tests/unit/test_md_checkpoint_resume.py", "tests/unit/test_md_suite.py", "tests/unit/test_nonadiabatic_checkpoint_resume.py"], scratch, "md")
+            repo_info["pytest"] = tail
+            segs = repotraces.md_segments(ev)
+            repo_info["segments"] = len(segs)
+            repo_info["engines"] = sorted({x["engine"] for x in segs})
+            if rc != 0:
+                rep.machinery("repository MD tests failed with hooks on: " + tail)
+            rv, rres = repotraces.validate_md(segs, scratch)
+            if rres is not None and rres.error:
+                rep.machinery("MDRunTrace(repo tests): " + rres.error[:500])
+            if rres is not None:
+                states += rres.distinct
+                trans += rres.generated
+            for sg in segs:
+                v = rv.get(sg["id"])
+                if v is None:
+                    rep.machinery("no verdict for repo segment " + sg["id"])
+                elif v["accepted"]:
+                    repo_info["accepted"] += 1
+                else:
+                    rep.violation("repo_test_execution_rejected", {"engine": sg["engine"], "cfg": sg["cfg"], "resumed_from": sg["resumed_from"], "matched": v["l"], "of": v["n"], "violated": v["bad"],
+                                                                   "next_event_not_explained": sg["ev"][v["l"]] if v["l"] < len(sg["ev"]) else None}, engine=sg["engine"], violated=v["bad"], crashed=sg["resumed_from"] >= 0)
         n_unarmed = sum(1 for r in results if r.get("ok") and r["result"]["unarmed"])
         nontriv = len({common.sha([c["cad"], c["xyz"], c["ckpt"], c["steps"], c["engine"], s]) for c, s in jobs if s})
         cov = {
             "states": states,
             "transitions": trans,
-            "traces_validated_against_impl": len(verdicts) + len(rverdicts) + len(sk_traces),
+            "traces_validated_against_impl": len(verdicts) + len(rverdicts) + len(sk_traces) + repo_info["segments"],
             "traces_accepted": n_acc + rn_acc + sk_info["accepted"],
             "syscall_level_kills": sk_info,
+            "repository_test_executions": repo_info,
             "tierB_real_es": {"runs": len(rjobs), "accepted": rn_acc, "tolerance": TOL, "largest_deviation_from_reference": maxdev,
                               "engines": sorted({c["engine"] + ("+exc" if "excited_states" in c.get("params", {}) else "") for c, _ in rjobs})},
             "samples": samples or [{"note": "no accepted trace"}],
